@@ -162,6 +162,7 @@ static void check_wait_result (const char *api, int res, struct op *o, nsync_not
 /* Digest of the note forest (plain fields protected by the notes' mutexes), logged after every note
    API return: fibers switch only at atomic operations, so the snapshot is a consistent memory state
    that the Note model must reproduce exactly. */
+static int born_notified[MAXOBJ];  /* the note was already notified when it was created (own deadline past, or parent notified/born notified) */
 static int64_t exp_min[MAXOBJ];   /* min of the deadlines from the note to its root, as given at creation */
 static int nnotes_seen;
 static nsync_note all_notes[64];
@@ -218,6 +219,9 @@ static void run_prog (void *arg) {
 				shadow_acq (o->b, wmode);
 				vf_log ("ret nsync_cv_wait_with_deadline %s", res == 0 ? "0" : res == ETIMEDOUT ? "ETIMEDOUT" : res == ECANCELED ? "ECANCELED" : "?");
 				check_wait_result ("nsync_cv_wait_with_deadline", res, o, cn);
+				if (res != 0 && vf_my_waiter_unlinked_by_waker ()) {
+					vf_violation ("swallowed-wakeup", "nsync_cv_wait_with_deadline returned %s although a signal/broadcast had unlinked this waiter (a consumed wake-up must be reported as 0)", res == ETIMEDOUT ? "ETIMEDOUT" : "ECANCELED");
+				}
 				if (o->code == OP_CVWAIT) { break; }
 			}
 			break; }
@@ -245,6 +249,7 @@ static void run_prog (void *arg) {
 			nsync_time t = mk_deadline (o, dt, sizeof (dt)); nsync_note par = o->b >= 0 ? notes[o->b] : NULL;
 			vf_log ("call nsync_note_new %s %s", par ? vf_name_of (par) : "-", dt);
 			exp_min[o->a] = dl_ns (o); if (o->b >= 0 && exp_min[o->b] < exp_min[o->a]) { exp_min[o->a] = exp_min[o->b]; }
+			born_notified[o->a] = (dl_ns (o) <= vf_now ()) || (o->b >= 0 && (born_notified[o->b] || (par != NULL && (note_flag (par) || exp_min[o->b] <= vf_now ()))));
 			vf_api_enter (); notes[o->a] = nsync_note_new (par, t); vf_api_leave ();
 			vf_log ("ret nsync_note_new %s", notes[o->a] ? vf_name_of (notes[o->a]) : "NULL");
 			remember_note (notes[o->a]); dump_notes ();
@@ -257,7 +262,7 @@ static void run_prog (void *arg) {
 		case OP_NOTE_FREE: if (notes[o->a]) { nsync_note n = notes[o->a]; vf_log ("call nsync_note_free %s", vf_name_of (n)); notes[o->a] = NULL; forget_note (n); vf_api_enter (); nsync_note_free (n); vf_api_leave (); vf_log ("ret nsync_note_free -"); dump_notes (); } break;
 		case OP_NOTE_EXPIRY: if (notes[o->a]) { nsync_time t; vf_log ("call nsync_note_expiry %s", vf_name_of (notes[o->a])); t = nsync_note_expiry (notes[o->a]); vf_log ("ret nsync_note_expiry %lld:%ld", (long long) NSYNC_TIME_SEC (t), (long) NSYNC_TIME_NSEC (t));
 				{ int64_t got = nsync_time_cmp (t, nsync_time_no_deadline) == 0 ? INT64_MAX : (int64_t) NSYNC_TIME_SEC (t) * 1000000000 + NSYNC_TIME_NSEC (t);
-				  if (got != exp_min[o->a]) { vf_violation ("expiry-min", "nsync_note_expiry = %lld but the minimum of the deadlines from the note to its root is %lld", (long long) got, (long long) exp_min[o->a]); } } } break;
+				  if (got != exp_min[o->a]) { vf_violation (born_notified[o->a] ? "expiry-min-born-notified" : "expiry-min", "nsync_note_expiry = %lld but the minimum of the deadlines from the note to its root is %lld", (long long) got, (long long) exp_min[o->a]); } } } break;
 		case OP_CTR_NEW: vf_log ("call nsync_counter_new %d", o->b); vf_api_enter (); ctrs[o->a] = nsync_counter_new ((uint32_t) o->b); vf_api_leave (); vf_log ("ret nsync_counter_new %s", ctrs[o->a] ? vf_name_of (ctrs[o->a]) : "NULL"); break;
 		case OP_CTR_ADD: if (ctrs[o->a]) { uint32_t r; vf_log ("call nsync_counter_add %s %d", vf_name_of (ctrs[o->a]), o->b); vf_api_enter (); r = nsync_counter_add (ctrs[o->a], o->b); vf_api_leave (); vf_log ("ret nsync_counter_add %u", r); } break;
 		case OP_CTR_VALUE: if (ctrs[o->a]) { uint32_t r; vf_log ("call nsync_counter_value %s", vf_name_of (ctrs[o->a])); vf_api_enter (); r = nsync_counter_value (ctrs[o->a]); vf_api_leave (); vf_log ("ret nsync_counter_value %u", r); } break;
